@@ -256,11 +256,16 @@ var c10DstKinds = []struct{ Name, Src, Dst string }{
 	{"custom", "custom/c", "custom/c"},
 }
 
+// ref kinds for the cross-kind tables (source kind x destination kind, every pair)
+var c10XKinds = []struct{ Name, Prefix string }{
+	{"heads", "heads/x"}, {"tags", "tags/x"}, {"remotes", "remotes/up/x"}, {"other", "other/x"},
+}
+
 func genC10(ctx *Ctx) []Case {
 	var cases []Case
 	sampleN := map[string]int{}
 	// quick tier keeps every k-th case of the big tables (k per tag); thorough keeps all
-	sampleK := map[string]int{"fetch-table": 2, "push-table": 4, "pull-table": 6}
+	sampleK := map[string]int{"fetch-table": 2, "push-table": 4, "pull-table": 6, "fetch-xkind": 8, "push-xkind": 8}
 	add := func(tag string, c *c10Case) {
 		if k, ok := sampleK[tag]; ok && !ctx.Thorough() {
 			sampleN[tag]++
@@ -271,6 +276,7 @@ func genC10(ctx *Ctx) []Case {
 		}
 		cases = append(cases, Case{Tag: tag, Nontrivial: true, C: c.Tree()})
 		ctx.Count("op_" + []string{"fetch", "push", "merge", "pull"}[c.Kind])
+		ctx.Count("tag_" + tag)
 	}
 	b2i := func(b bool) int {
 		if b {
@@ -371,7 +377,82 @@ func genC10(ctx *Ctx) []Case {
 			}
 		}
 	}
+	// ---- cross-kind table: the source ref of one kind mapped onto a destination of every kind, for fetch and
+	// push alike.  The rules key on the DESTINATION name (an existing refs/tags/x is protected whatever the
+	// source is; a refs/heads/x source mapped onto a non-tag destination is not a tag); a rule keyed on the source
+	// side agrees with that on same-kind refspecs only.
+	for ts := 0; ts < nts; ts++ {
+		if ts > 0 {
+			break // one timestamp regime is enough here: the decision does not read times
+		}
+		for _, rel := range c10Relations {
+			for _, sk := range c10XKinds {
+				for _, dk := range c10XKinds {
+					for _, present := range bools {
+						for _, rf := range bools {
+							for _, gf := range bools {
+								src, dst := sk.Prefix+"s", dk.Prefix+"d"
+								// fetch: remote src = rel.R, local dst = rel.L
+								c := c10NewCase(ts)
+								c.Kind = 0
+								c.GForce = gf
+								c.RRefs = [][2]interface{}{{src, rel.R}, {"heads/other", 6}}
+								if present {
+									c.LRefs = [][2]interface{}{{dst, rel.L}}
+								}
+								c.LRefs = append(c.LRefs, [2]interface{}{"heads/keep", 1})
+								c.Specs = []c10Spec{{rf, false, src, dst}}
+								c.closeHave()
+								add("fetch-xkind", c)
+								ctx.Count("xkind_" + sk.Name + "_to_" + dk.Name)
+								// push: local src = rel.L, remote dst = rel.R
+								c = c10NewCase(ts)
+								c.Kind = 1
+								c.GForce = gf
+								c.DenyFF = rf && gf && present // a few cases with the server-side rule as well
+								c.LRefs = [][2]interface{}{{src, rel.L}, {"heads/keep", 1}}
+								if present {
+									c.RRefs = [][2]interface{}{{dst, rel.R}}
+								}
+								c.RRefs = append(c.RRefs, [2]interface{}{"heads/other", 1})
+								c.Items = []c10PItem{{rf, src, dst}}
+								c.closeHave()
+								add("push-xkind", c)
+							}
+						}
+					}
+				}
+			}
+		}
+	}
 	// ---- fixed witnesses
+	{
+		// seeded-mutation witness: a branch fetched / pushed onto an EXISTING tag, the incoming commit a
+		// descendant of the tag's commit, no force: must be refused ("would clobber existing tag")
+		for _, kind := range []int{0, 1} {
+			c := c10NewCase(0)
+			c.Kind = kind
+			if kind == 0 {
+				c.RRefs = [][2]interface{}{{"heads/release", 6}}
+				c.LRefs = [][2]interface{}{{"tags/release", 1}, {"heads/keep", 1}}
+				c.Specs = []c10Spec{{false, false, "heads/release", "tags/release"}}
+			} else {
+				c.LRefs = [][2]interface{}{{"heads/release", 6}, {"heads/keep", 1}}
+				c.RRefs = [][2]interface{}{{"tags/release", 1}}
+				c.Items = []c10PItem{{false, "heads/release", "tags/release"}}
+			}
+			c.closeHave()
+			add("branch-onto-tag", c)
+		}
+		// and the converse: a tag source onto an existing branch is an ordinary fast-forward
+		c0 := c10NewCase(0)
+		c0.Kind = 0
+		c0.RRefs = [][2]interface{}{{"tags/v", 6}}
+		c0.LRefs = [][2]interface{}{{"heads/b", 1}, {"heads/keep", 1}}
+		c0.Specs = []c10Spec{{false, false, "tags/v", "heads/b"}}
+		c0.closeHave()
+		add("branch-onto-tag", c0)
+	}
 	{
 		// glob refspec over several refs with mixed outcomes (frame): b1 fast-forwards, b2 is rejected, b3 is new,
 		// tag t1 exists (kept), tag t2 uncovered and present -> stored, tag t3 uncovered and absent -> fetched? no: not wanted
@@ -1020,7 +1101,14 @@ func runC10(ctx *Ctx, t *xt.T) (*xt.T, Verdict) {
 					lv = l.Val
 				}
 			}
+			// GET /refs/ does not list the remote's own remote-tracking refs: the client takes such a destination
+			// for a new ref, and the server's compare-and-swap (R1) refuses the update when it does exist
+			hidden := present && strings.HasPrefix(it.Dst, "remotes/")
 			switch {
+			case hidden:
+				if it.Src != "" {
+					expectRej++
+				}
 			case it.Src == "":
 				if present && !c.DenyDl {
 					wantPresent = false
